@@ -1658,8 +1658,10 @@ class PCE500Emulator:
             self.keyboard.load_state(keyboard_state)
 
         reg_values = _unpack_register_bytes(registers_blob)
+        # The Rust core writes the keys as "TEMP0".."TEMP13", Python as "0".."13".
         temps = {
-            int(key): int(value) for key, value in (metadata.get("temps") or {}).items()
+            int(str(key).upper().removeprefix("TEMP")): int(value)
+            for key, value in (metadata.get("temps") or {}).items()
         }
         snapshot = CPURegistersSnapshot(
             pc=reg_values["pc"],
